@@ -38,7 +38,7 @@ ASSUMPTIONS = ["independent crypto anchored on AN159 vectors (sim.crypto.anchor_
                "the attacker knows the session key for 'valid MAC' variants (it is the gateway)"]
 
 KINDS = ["genuine", "genuine", "genuine", "replay", "lower", "equal", "jump", "forged", "wrong_key", "wrong_sid", "plain",
-         "nested", "remote_diag", "garbage_inner", "session_response_replay"]
+         "nested", "remote_diag", "garbage_inner", "session_response_replay", "forged_short"]
 PLAIN_SVCS = [W.TUNNEL_REQ, W.CONNSTATE_RES, W.DISCONNECT_REQ, W.SESSION_STATUS, W.CONNECT_RES, W.TUNNEL_ACK, W.ROUTING_IND,
               W.SEARCH_RES, W.DESCR_RES, W.SESSION_AUTH, W.TIMER_NOTIFY, W.SESSION_REQ, W.SESSION_REQ, 0x0201, 0x0203, 0x0207,
               0x0310, 0x0530, 0x0532]
@@ -64,6 +64,9 @@ def gen(seed: int, tier: str) -> dict[str, Any]:
             op["flip"] = rng.randrange(0, 60 * 8)
         if k == "jump":
             op["d"] = rng.choice([1, 5, 1000, 2 ** 40])
+        if k == "forged_short":
+            op["n"] = rng.choice([0, 1, 2, 5, 6, 7, 8, 9])
+            op["d"] = rng.choice([0, 1, 1000, 2 ** 40, 2 ** 47])
         ops.append(op)
     if not clean:
         if rng.random() < 0.3:
@@ -300,6 +303,15 @@ def run(plan: dict[str, Any]) -> dict[str, Any]:
                     return      # header length / version / service type: not a SecureWrapper any more (C22's domain)
                 s.conn.send_to_client(bytes(w))
                 # the untouched frame, sent right after, must still be accepted
+                gw.send_wrapped(s, inner)
+                expected.append((W.TUNNEL_REQ, pid))
+            elif k == "forged_short":
+                # a wrapper made without any key: right session id (readable on the wire), a sequence number ahead of the
+                # gateway's, 0..9 octets where the encrypted frame belongs and a random MAC - too short to hold a frame.
+                # It must be dropped without a trace: the genuine frame behind it is still accepted
+                body = (struct.pack(">H", s.sid) + (s.tx_seq + op["d"]).to_bytes(6, "big") + bytes(6) + b"\x00\x00"
+                        + rng.randbytes(op["n"]) + rng.randbytes(16))
+                s.conn.send_to_client(W.frame(W.SECURE_WRAPPER, body))
                 gw.send_wrapped(s, inner)
                 expected.append((W.TUNNEL_REQ, pid))
             elif k == "wrong_key":
